@@ -96,11 +96,12 @@ var c06Values = [dNumDims][]string{
 	dNU:  {"present", "absent"},
 	dExt: {"aki+number", "absent", "number", "aki+number-9-octets", "aki+number-20-octets", "aki+number+unknown-noncritical", "aki+number+unknown-critical", "aki+number+delta-critical", "aki+number+idp-critical", "aki+number+ian-critical", "aki+number+freshest-critical", "aki+number+aia-critical",
 		// where an unsupported critical extension stands among supported critical ones must not matter
+		"aki-only",
 		"critical-number+critical-aki+delta-critical", "delta-critical+critical-number+critical-aki", "critical-number+idp-critical+critical-aki", "critical-aki+critical-number"},
 	dEnc:    {"DER", "PEM-LF", "PEM-CRLF"},
 	dDate:   {"UTCTime", "GeneralizedTime"},
 	dSerial: {"small", "1byte", "2byte", "3byte", "8byte", "9byte-topbit", "16byte", "19byte", "20byte", "zero", "2^159", "20byte-topbit"},
-	dEExt:   {"none", "reason", "reason+invalidityDate", "opaque-3KiB", "opaque-70KiB", "mixed"},
+	dEExt:   {"none", "reason", "reason+invalidityDate", "opaque-3KiB", "opaque-70KiB", "mixed", "opaque-150", "opaque-300"},
 	dIssuer: {"simple", "1rdn", "6rdn", "multivalued-rdn", "utf8-nonascii", "300byte-value", "cn-first", "o-before-c", "domain-components", "email+uid"},
 	dAlg:    {"ecdsa-sha256", "sha1-rsa", "sha224-rsa", "sha256-rsa", "sha384-rsa", "sha512-rsa", "ecdsa-sha1", "ecdsa-sha224", "ecdsa-sha384", "ecdsa-sha512"},
 	dPad:    {"0"}, // numeric, free
@@ -298,6 +299,10 @@ func (c c06Case) build() (doc []byte, der []byte, wellFormed bool, mustReject bo
 			e.Exts = []pkix.Extension{world.ReasonExt([]int{1, 8, 2, 0, 3, 10, 4, 6, 5, 9}[i%10])} // every reason code, also removeFromCRL (8)
 		case "reason+invalidityDate":
 			e.Exts = []pkix.Extension{world.ReasonExt(1), world.InvalidityDateExt(vsched.Epoch.Add(-100 * time.Hour))}
+		case "opaque-150": // entry header with one long-form length octet (30 81 xx)
+			e.Exts = []pkix.Extension{world.UnknownExt(false, 150)}
+		case "opaque-300": // entry header with two long-form length octets (30 82 xx xx)
+			e.Exts = []pkix.Extension{world.UnknownExt(false, 300)}
 		case "opaque-3KiB":
 			e.Exts = []pkix.Extension{world.UnknownExt(false, 3000)}
 		case "opaque-70KiB":
@@ -320,6 +325,8 @@ func (c c06Case) build() (doc []byte, der []byte, wellFormed bool, mustReject bo
 	case "absent":
 	case "number":
 		s.Exts = []pkix.Extension{world.CRLNumberExt(300)}
+	case "aki-only":
+		s.Exts = []pkix.Extension{aki}
 	case "aki+number-9-octets":
 		s.Exts = []pkix.Extension{aki, world.CRLNumberBigExt(new(big.Int).Lsh(big.NewInt(0x81), 64))}
 	case "aki+number-20-octets":
@@ -673,6 +680,16 @@ func RunC06(tier string, args []string) int {
 					c[dAlg] = 3
 					judge(c)
 					sweep++
+				}
+				if n == 0 && (enc == 0 || pad%3 == 0) {
+					// ... and with entries whose own header has a long-form length (every entry header is peeked before it
+					// is read; where the window ends inside such a header is swept as well)
+					for _, ee := range []int{6, 7} {
+						var c2 c06Case
+						c2[dPad], c2[dEnc], c2[dN], c2[dEExt] = pad, enc, n, ee
+						judge(c2)
+						sweep++
+					}
 				}
 			}
 		}
